@@ -219,7 +219,7 @@ def sources(rnd, thorough):
     for k in c07.CONSTRUCTS["remove_continue"][3]:
         out += c07.contexts_for_stmt(k, True, rnd, limit, loops_only=True)
     g = Gen(rnd)
-    for _ in range(6000 if thorough else 700):
+    for _ in range(6000 if thorough else 500):
         out.append(g.block(rnd.choice([2, 3, 3, 4]), False))
     # many sibling loops (ids with several digits)
     out.append(" ".join("while c%d do if a then continue end end" % i for i in range(120)))
@@ -255,7 +255,8 @@ def run_stream(ctx, prop):
         cases.append((k, "(%s, %s)" % (t_in, t_out)))
     if unparsable > len(srcs) // 10:
         raise C.CheckBroken("%d of %d remove_continue templates do not parse" % (unparsable, len(srcs)))
-    stats = C.run_coq_stats(prop, PREAMBLE, cases, chunk=120, tag="continue")
+    # one shard per core: the start-up of coqc (loading the model) dominates a shard of this size
+    stats = C.run_coq_stats(prop, PREAMBLE, cases, chunk=max(60, -(-len(cases) // C.NPROC)), tag="continue")
     changed = [k for k, v in stats.items() if v == 0]
     same = [k for k, v in stats.items() if v == 1]
     bad = sorted(k for k, v in stats.items() if v == 2)
